@@ -569,7 +569,9 @@ def exec : Sh → St → Tree Res
     .ret (.norm (okSt { st1 with exported := v :: st1.exported }))
   | .cmd name args, st => runCmd st .ext (expandArgs st (name :: args)) []
   | .heredoc target lines, st =>
-    runCmd st .ext [[.lit "cat"]] [.write (resolve st.cwd (expand st target)) (.heredoc lines)]
+    -- the shell creates / truncates the target, then `cat` copies the document into it
+    let p := resolve st.cwd (expand st target)
+    .eff (.write p (.text [])) (runCmd st .ext [[.lit "cat"]] [.write p (.heredoc lines)])
   | .echo args redir, st =>
     match redir with
     | none => .ret (.norm (okSt st))
